@@ -4576,19 +4576,23 @@ class ParameterizedMetaclass(type):
 
         # Resolve dependencies in class hierarchy
         _inherited = []
-        for cls in classlist(mcs)[:-1][::-1]:
-            if not hasattr(cls, '_param__parameters'):
-                continue
+        bases = [cls for cls in classlist(mcs)[:-1][::-1] if hasattr(cls, '_param__parameters')]
+        for cls in bases:
             for dep in cls.param._depends['watch']:
-                if dep[0] not in cls.__dict__:
-                    # cls only inherited this registration: the class
-                    # defining the method comes later in the MRO, and a
-                    # class earlier in the MRO may well override it
+                if any(dep[0] == w[0] for w in _watch+_inherited):
                     continue
+                if dep[0] not in cls.__dict__:
+                    # cls only inherited this registration (it keeps its
+                    # place in the order): the one that counts is that of
+                    # the class defining the method that will run
+                    owner = next((c for c in bases if dep[0] in c.__dict__), None)
+                    dep = next((d for d in getattr(owner, 'param', mcs.param)._depends['watch']
+                                if d[0] == dep[0]), None) if owner is not None else None
+                    if dep is None:
+                        continue
                 method = getattr(mcs, dep[0], None)
                 dinfo = getattr(method, '_dinfo', {'watch': False})
-                if (not any(dep[0] == w[0] for w in _watch+_inherited)
-                    and dinfo.get('watch')):
+                if dinfo.get('watch'):
                     _inherited.append(dep)
 
         mcs.param._depends = {'watch': _inherited+_watch}
